@@ -145,26 +145,14 @@ fn parse_json(out: &str) -> Result<Vec<JsonItem>, String> {
     Ok(items)
 }
 
-/// `<ROOT>/d1/../inc2.s` and `<ROOT>/inc2.s` are the same file: compact/pretty print the path as the
-/// reader joined it, JSON prints the canonical path.
+/// The file as a channel prints it. All channels must name a file the same way (since repair
+/// 565cf5e the reader keeps one canonical name per file); only a diagnostic that is attached to no
+/// file has two spellings: `<unknown file>` in compact/pretty, `null` in JSON.
 fn norm_path(p: &str) -> String {
     if p == "<unknown file>" {
-        // how compact/pretty print a diagnostic that is attached to no file; JSON prints null
         return "<null>".into();
     }
-    let mut parts: Vec<&str> = Vec::new();
-    for c in p.split('/') {
-        match c {
-            "." => {}
-            ".." => {
-                if parts.last().is_some_and(|l| *l != "<ROOT>" && !l.is_empty()) {
-                    parts.pop();
-                }
-            }
-            x => parts.push(x),
-        }
-    }
-    parts.join("/")
+    p.to_string()
 }
 
 fn parse_trailer(line: &str) -> Option<usize> {
